@@ -130,26 +130,26 @@ LinePoints(s, e) == LPDrain(LPInit(s, e), <<>>)
 
 ---------------------------------------------------------------------------
 (* TRANSCRIBED: ParallelsIterator / ThickPoints (thick_points.rs), for        *)
-(* StrokeOffset::None (the only one a styled Line uses, styled.rs:27).        *)
+(* StrokeOffset::None (the only one a styled Line uses, thick_points.rs:224). *)
 (* state [par, perp, acc, thresh, flip, left, leftErr, right, rightErr, side] *)
 
-\* next_parallel (thick_points.rs:131-160): <<"N" | "E", point, error, state'>>
+\* next_parallel (thick_points.rs:134-163): <<"N" | "E", point, error, state'>>
 RECURSIVE ParNextParallel(_, _)
 ParNextParallel(it, side) ==
-  LET dec == IF side = "L" THEN it.flip ELSE ~it.flip                                    \* :132-135
+  LET dec == IF side = "L" THEN it.flip ELSE ~it.flip                                    \* :135-138
       err == IF side = "L" THEN it.leftErr ELSE it.rightErr
-      r   == IF side = "L" THEN BNextAll(it.perp, it.left) ELSE BPrevAll(it.perp, it.right)   \* :138-141
+      r   == IF side = "L" THEN BNextAll(it.perp, it.left) ELSE BPrevAll(it.perp, it.right)   \* :141-144
       it1 == IF side = "L" THEN [it EXCEPT !.left = r[3]] ELSE [it EXCEPT !.right = r[3]]
       SetErr(i, v) == IF side = "L" THEN [i EXCEPT !.leftErr = v] ELSE [i EXCEPT !.rightErr = v]
-  IN IF r[1] = "N" THEN <<"N", r[2], err, it1>>                                          \* :144
+  IN IF r[1] = "N" THEN <<"N", r[2], err, it1>>                                          \* :147
      ELSE IF dec
-          THEN LET d == DecreaseError(it.par, err) IN                                    \* :148-153
+          THEN LET d == DecreaseError(it.par, err) IN                                    \* :151-156
                IF d[1] THEN <<"E", r[2], err, SetErr(it1, d[2])>>
                ELSE ParNextParallel(SetErr(it1, d[2]), side)
-          ELSE LET d == IncreaseError(it.par, err) IN                                    \* :154-156
+          ELSE LET d == IncreaseError(it.par, err) IN                                    \* :157-159
                IF d[1] THEN <<"E", r[2], d[2], SetErr(it1, d[2])>>
                ELSE ParNextParallel(SetErr(it1, d[2]), side)
-\* ParallelsIterator::new (thick_points.rs:81-128)
+\* ParallelsIterator::new (thick_points.rs:81-131)
 ParInit(s, e, thickness) ==
   LET ls   == IF s = e THEN <<0, 0>> ELSE s                                              \* :87 HORIZONTAL_LINE
       le   == IF s = e THEN <<1, 0>> ELSE e
@@ -157,35 +157,35 @@ ParInit(s, e, thickness) ==
       dl   == PSub(le, ls)
       perp == BParams(ls, PAdd(ls, <<dl[2], -dl[1]>>))                                   \* Line::perpendicular (mod.rs:100)
       it0  == [ par |-> par, perp |-> perp,
-                acc |-> (par.esMinor + par.esMajor) \div 2,                              \* :97
-                thresh |-> (thickness * 2) * (thickness * 2) * LenSq(dl),                \* :96
-                flip |-> perp.psMinor = PNeg(par.psMajor),                               \* :101
+                acc |-> (par.esMinor + par.esMajor) \div 2,                              \* :100-101
+                thresh |-> (thickness * 2) * (thickness * 2) * LenSq(dl),                \* :98-99 (i64 in the code; no overflow here)
+                flip |-> perp.psMinor = PNeg(par.psMajor),                               \* :104-105
                 left |-> BInit(s), leftErr |-> 0, right |-> BInit(s), rightErr |-> 0,
-                side |-> "R" ]                                                           \* :105
-  IN ParNextParallel(it0, "L")[4]                                                        \* :125 skip centre line
-\* Iterator::next (thick_points.rs:167-200): <<some?, [b, kind], state'>>
+                side |-> "R" ]                                                           \* :108
+  IN ParNextParallel(it0, "L")[4]                                                        \* :128 skip centre line
+\* Iterator::next (thick_points.rs:170-203): <<some?, [b, kind], state'>>
 ParNext(it) ==
-  IF it.acc * it.acc > it.thresh THEN <<FALSE, <<>>, it>>                                \* :168
+  IF it.acc * it.acc > it.thresh THEN <<FALSE, <<>>, it>>                                \* :171
   ELSE LET r   == ParNextParallel(it, it.side)
            it1 == [r[4] EXCEPT !.acc = @ + (IF r[1] = "N" THEN it.perp.esMinor ELSE it.perp.esMajor),
-                               !.side = IF it.side = "L" THEN "R" ELSE "L"]              \* :195
+                               !.side = IF it.side = "L" THEN "R" ELSE "L"]              \* :198-200
        IN <<TRUE, [b |-> BWithErr(r[2], r[3]), kind |-> r[1]], it1>>
 
-\* ThickPoints (thick_points.rs:206-248)   state [parallel, len, rem, iter]
+\* ThickPoints (thick_points.rs:209-251)   state [parallel, len, rem, iter]
 ThickInit(s, e, w) ==
   [parallel |-> BInit(s), len |-> MajorLength(s, e), rem |-> 0, iter |-> ParInit(s, e, w)]
-\* Iterator::next (:229): <<some?, point, state'>>
+\* Iterator::next (:232): <<some?, point, state'>>
 RECURSIVE ThickNext(_)
 ThickNext(t) ==
   IF t.rem > 0
   THEN LET r == BNext(t.iter.par, t.parallel) IN <<TRUE, r[1], [t EXCEPT !.rem = @ - 1, !.parallel = r[2]]>>
   ELSE LET n == ParNext(t.iter) IN
-       IF ~n[1] THEN <<FALSE, <<>>, t>>                                                  \* :236 `?`
+       IF ~n[1] THEN <<FALSE, <<>>, t>>                                                  \* :239 `?`
        ELSE ThickNext([t EXCEPT !.parallel = n[2].b, !.iter = n[3],
-                                !.rem = IF n[2].kind = "E" THEN t.len - 1 ELSE t.len])   \* :239-244
+                                !.rem = IF n[2].kind = "E" THEN t.len - 1 ELSE t.len])   \* :242-247
 RECURSIVE ThickDrain(_, _)
 ThickDrain(t, acc) == LET r == ThickNext(t) IN IF r[1] THEN ThickDrain(r[3], Append(acc, r[2])) ELSE acc
-\* the point sequence of Styled<Line>::pixels() for stroke width w >= 1 (styled.rs:21-45)
+\* the point sequence of Styled<Line>::pixels() for stroke width w >= 1 (styled.rs:22-45)
 ThickSeq(s, e, w) == ThickDrain(ThickInit(s, e, w), <<>>)
 ---------------------------------------------------------------------------
 (* TRANSCRIBED: polyline::Points (src/primitives/polyline/points.rs)          *)
